@@ -112,8 +112,11 @@ def gen_method(st, n, kind):
     return "chol" if (n <= max_chol or not fast) else "lanczos"
 
 
-def resolve_roots(node, st):
-    """fill rk of the generic leaves AFTER the first sampler call (decomposition caches are then populated)"""
+def resolve_roots(node, st, observed=False):
+    """fill rk of the generic leaves AFTER the first sampler call (decomposition caches are then populated).
+    observed=True: other calls were made on the operators before sampling (a history), so the cache branches of
+    _choose_root_method / a pre-filled root_decomposition entry may be in effect: the root in use is read from the
+    object (kind 'given') instead of being predicted from the settings."""
     from linear_operator.operators import LinearOperator
     for lf in leaves(node):
         if lf["s"] != "gen":
@@ -121,7 +124,7 @@ def resolve_roots(node, st):
         op, e, n = lf["leaf"], lf["expr"], lf["n"]
         c = lf["cls"]
         overridden = type(op).root_decomposition is not LinearOperator.root_decomposition
-        kind = "given" if (c in CONSTRUCTOR_ROOT or overridden) else "auto"
+        kind = "given" if (c in CONSTRUCTOR_ROOT or overridden or observed) else "auto"
         m = gen_method(st, n, kind)
         lf["method"] = m
         if c in ("Root", "LowRankRoot"):
